@@ -377,6 +377,9 @@ func Render(h map[string]string) (map[string]string, []string) {
 	case "submodule-only":
 		files["orphan.yang"] = "submodule orphan { belongs-to nobody { prefix n; } container oc; }\n"
 		order = append(order, "orphan.yang")
+	case "submodule-with-identity":
+		files["orphan.yang"] = "submodule orphan { belongs-to nobody { prefix n; } identity a; identity b { base a; } typedef ot { type identityref { base a; } } container oc { leaf l { type identityref { base n:a; } } leaf l2 { type ot; } } }\n"
+		order = append(order, "orphan.yang")
 	case "only-comment":
 		files["comment.yang"] = "// nothing here\n/* at all */\n"
 		order = append(order, "comment.yang")
